@@ -209,6 +209,45 @@ func genByteEdits(seeds []wgen.Micro) c10Gen {
 		}}
 }
 
+// genPrefixTailEdits: every prefix of every small seed with an invalid UTF-8 byte substituted at each of its last two
+// positions (a source cut mid-token or mid-character, with an invalid byte next to the cut).
+func genPrefixTailEdits(seeds []wgen.Micro) c10Gen {
+	type info struct {
+		name, src string
+		base      int
+	}
+	var infos []info
+	total := 0
+	tail := []byte{0x80, 0xC0, 0xE2, 0xFF} // continuation byte, invalid lead bytes, first byte of a 3-byte sequence
+	per := 2 * len(tail)
+	for _, s := range seeds {
+		infos = append(infos, info{s.Name, s.Src, total})
+		total += len(s.Src) * per
+	}
+	locate := func(i int) (*info, int) {
+		k := 0
+		for k+1 < len(infos) && infos[k+1].base <= i {
+			k++
+		}
+		return &infos[k], i - infos[k].base
+	}
+	return c10Gen{Name: "prefix-tail-edits", Count: total,
+		At: func(i int) string {
+			s, r := locate(i)
+			cut, e := r/per+1, r%per
+			pos, bi := e/len(tail), e%len(tail)
+			p := []byte(s.src[:cut])
+			if k := len(p) - 1 - pos; k >= 0 {
+				p[k] = tail[bi]
+			}
+			return string(p)
+		},
+		Label: func(i int) string {
+			s, r := locate(i)
+			return fmt.Sprintf("%s prefix-tail#%d", s.name, r)
+		}}
+}
+
 // ---------------------------------------------------------------- scaling ladders
 
 type ladder struct {
@@ -353,6 +392,28 @@ var c10Ladders = []ladder{
 		b.WriteString("struct S {\n")
 		for i := 0; i < n; i++ {
 			fmt.Fprintf(&b, "m%d: vec3<f32>,\n", i)
+		}
+		b.WriteString("}\n@group(0) @binding(0) var<storage, read_write> s: S;\n" + mainHdr + "{ s.m0 = s.m" + fmt.Sprint(n-1) + "; }")
+		return b.String()
+	}},
+	{"many-params", []int{1, 8, 64, 512, 4096, 4500}, func(n int) string {
+		var b strings.Builder
+		b.WriteString("fn f(")
+		for i := 0; i < n; i++ {
+			fmt.Fprintf(&b, "p%d: i32, ", i)
+		}
+		b.WriteString(") -> i32 { return p0; }\n@group(0) @binding(0) var<storage, read_write> o: array<i32>;\n" + mainHdr + "{ o[0] = f(")
+		for i := 0; i < n; i++ {
+			fmt.Fprintf(&b, "%d, ", i)
+		}
+		b.WriteString("); }")
+		return b.String()
+	}},
+	{"many-members-i32", []int{4096, 5000}, func(n int) string {
+		var b strings.Builder
+		b.WriteString("struct S {\n")
+		for i := 0; i < n; i++ {
+			fmt.Fprintf(&b, "m%d:i32,", i)
 		}
 		b.WriteString("}\n@group(0) @binding(0) var<storage, read_write> s: S;\n" + mainHdr + "{ s.m0 = s.m" + fmt.Sprint(n-1) + "; }")
 		return b.String()
@@ -507,7 +568,8 @@ func genLadders(maxDepth, maxBig int) c10Gen {
 			if l.sizes[len(l.sizes)-1] > 1<<20 {
 				maxN = maxBig // object-size ladder
 			}
-			if n > maxN && n != 1<<31-1 && n != 1<<32-1 {
+			wide := strings.HasPrefix(l.name, "many-") && n <= 5000 // wide-but-flat constructs are cheap: keep their large rungs in the quick tier
+			if n > maxN && n != 1<<31-1 && n != 1<<32-1 && !wide {
 				continue // quick tier: small rungs only (plus the two integer-limit values)
 			}
 			if q := ladderQuickMax[l.name]; q > 0 && maxDepth < 1<<62 && n > q {
